@@ -7,6 +7,8 @@ C16.b routing predicates agree (exact, over FileType x cacheable): a file class 
   hot-written; pack writers pass cacheable = BlobType::is_cacheable().
 C16.c warm-up before cold pack reads: in restore, prune, check --read-data, repair index (both variants) and the hot/cold
   repair the warm_up_wait call dominates every pack read, is `?`-propagated and is not fed an empty iterator.
+C16.f composition order: WarmUpAccessBackend::new_warm_up wraps the cold backend before HotColdBackend::new composes hot and
+  cold - never the composition.
 C16.d config: save_config clears is_hot for the cold copy, save_config_hot sets Some(true).
 """
 import re
@@ -48,6 +50,19 @@ def run(ctx, rep):
     rep.rule("C16.b", "routing predicates of write_bytes / remove / read_partial / read_full agree over FileType x cacheable")
     rep.rule("C16.c", "warm_up_wait dominates cold pack reads and is propagated")
     rep.rule("C16.d", "is_hot handling of save_config / save_config_hot")
+    # ---- C16.f: the warm-up access wrapper sits on the COLD store only --------------------------------------------
+    rep.rule("C16.f", "warm-up access wraps the cold backend before the hot/cold composition (hot reads are never turned into warm-up requests)")
+    n_wu = 0
+    for b in prog.by_crate["rustic_core"]:
+        wus = [bb for bb, t in b.calls() if "callee" in t and re.search(r"WarmUpAccessBackend::new_warm_up$", callee(t))]
+        hcs = [bb for bb, t in b.calls() if "callee" in t and re.search(r"hotcold::HotColdBackend::new$", callee(t))]
+        if not wus or not hcs:
+            continue
+        n_wu += 1
+        bad = [w for w in wus for h in hcs if C.can_reach(b, h, w)]
+        rep.check("C16.f", f"{fn_key(b)}/warm-up-wraps-cold-only", not bad, where=where(b, wus[0]), what=f"{fn_key(b)}: the warm-up access backend is created from the cold backend, before HotColdBackend::new" if not bad else
+                  f"{fn_key(b)}: WarmUpAccessBackend wraps the hot/cold COMPOSITION: every read (also of files served by the hot store) is answered by a warm-up request with an empty result - the hot copy is no longer what is read")
+    rep.require("C16.f", "site", n_wu >= 1, where="", what="a function composes warm-up access and hot/cold backends")
     HC = "<rustic_core::backend::hotcold::HotColdBackend as rustic_core::backend::"
     W = prog.fn(HC + "WriteBackend>::write_bytes")
     RMV = prog.fn(HC + "WriteBackend>::remove")
